@@ -22,11 +22,12 @@ import P2P.Drv.ChargeGuard
 import P2P.Drv.Carboxylic
 import P2P.Drv.Stages
 import P2P.Drv.RepairFit
+import P2P.Drv.Nuc
 
 open P2P P2P.Drv
 
 def allHandlers : List (String × Handler) :=
-  PqrD.handlers ++ PdbReadD.handlers ++ DxD.handlers ++ PsizeD.handlers ++ CifD.handlers ++ FFD.handlers ++ SSD.handlers ++ TerminiD.handlers ++ PkaD.handlers ++ GeomD.handlers ++ CellsD.handlers ++ PeoeD.handlers ++ RigidD.handlers ++ AtomsD.handlers ++ ChargeGuardD.handlers ++ CarboxylicD.handlers ++ StagesD.handlers ++ RepairFitD.handlers
+  PqrD.handlers ++ PdbReadD.handlers ++ DxD.handlers ++ PsizeD.handlers ++ CifD.handlers ++ FFD.handlers ++ SSD.handlers ++ TerminiD.handlers ++ PkaD.handlers ++ GeomD.handlers ++ CellsD.handlers ++ PeoeD.handlers ++ RigidD.handlers ++ AtomsD.handlers ++ ChargeGuardD.handlers ++ CarboxylicD.handlers ++ StagesD.handlers ++ RepairFitD.handlers ++ NucD.handlers
 
 def answer (line : Str) : Str :=
   let line := line.filter (fun c => c ≠ '\n' && c ≠ '\r')
